@@ -886,7 +886,165 @@ theorem run_statInv (cfg : Cfg) (rs : List Round) : StatInv cfg (run cfg rs) := 
     | cons r rs ih => intro s h; exact ih _ (step_statInv h r)
   exact this rs _ (init_statInv cfg)
 
-/-- the history only grows: whatever one more round does, the marks made so far stay where they are -/
+/-! ### the periodic section as a whole -/
+
+/-- a mark of the periodic section: a tick, a frame handled inside a statistics send, or a manager-originated frame -/
+def TickMark (cfg : Cfg) (m : Mark) : Prop :=
+  m = .timingTick ∨ m = .trafficTick ∨ ∃ t b, m = .fwd t b ∧ (b = true ∨ mgrType cfg t = true)
+
+theorem tickMark_of_marks {cfg : Cfg} {P : Int → Bool} {e : List Mark} (h : Marks P true e) : ∀ m ∈ e, TickMark cfg m :=
+  fun m hm => by obtain ⟨t, rfl, _⟩ := h m hm; exact Or.inr (Or.inr ⟨t, true, rfl, Or.inl rfl⟩)
+
+theorem tickMark_of_mgr {cfg : Cfg} {b : Bool} {e : List Mark} (h : Marks (mgrType cfg) b e) : ∀ m ∈ e, TickMark cfg m :=
+  fun m hm => by obtain ⟨t, rfl, ht⟩ := h m hm; exact Or.inr (Or.inr ⟨t, b, rfl, Or.inr ht⟩)
+
+theorem no_tick_in_marks {P : Int → Bool} {b : Bool} {e : List Mark} (h : Marks P b e) :
+    Mark.timingTick ∉ e ∧ Mark.trafficTick ∉ e :=
+  ⟨(fun hc => by obtain ⟨t, he, _⟩ := h _ hc; cases he), (fun hc => by obtain ⟨t, he, _⟩ := h _ hc; cases he)⟩
+
+/-- one part of the periodic section: marks `mk`, the clock and the buffer untouched, idle afterwards -/
+structure StepT (cfg : Cfg) (s s' : State) (mk : List Mark) : Prop where
+  hist : s'.hist = mk ++ s.hist
+  marks : ∀ m ∈ mk, TickMark cfg m
+  now : s'.now = s.now
+  buf : s'.buf = s.buf
+  idle : s'.inTraffic = false
+
+theorem StepT.refl (cfg : Cfg) {s : State} (h : s.inTraffic = false) : StepT cfg s s [] :=
+  ⟨rfl, (fun _ hm => by cases hm), rfl, rfl, h⟩
+
+theorem sendTiming_acc (cfg : Cfg) (s : State) :
+    ∃ e, Marks (fun _ => true) true e ∧ StepT cfg s (sendTiming cfg s) (.timingTick :: e) ∧
+      (sendTiming cfg s).tTraffic = s.tTraffic ∧ (sendTiming cfg s).trafficSeq = s.trafficSeq ∧
+      (sendTiming cfg s).tInfo = s.tInfo := by
+  unfold sendTiming
+  dsimp only
+  obtain ⟨e, ha⟩ := fwdTop_any cfg ({ s with counts := [], inTraffic := true } : State)
+    (mgrFrame cfg.mtTiming 0 cfg.szTiming (Body.timing (timingEntries cfg s.counts) (pidEntries s.mods)))
+  refine ⟨e, ha.marks, ⟨by rw [ha.hist]; rfl, ?_, ha.now, ha.buf, rfl⟩, ha.tR, ha.seq, ha.tI⟩
+  intro m hm
+  rcases List.mem_cons.mp hm with rfl | h
+  · exact Or.inl rfl
+  · exact tickMark_of_marks ha.marks m h
+
+theorem sendTraffic_acc (cfg : Cfg) (s : State) :
+    ∃ e, Marks (fun _ => true) true e ∧ StepT cfg s (sendTraffic cfg s) (.trafficTick :: e) ∧
+      (sendTraffic cfg s).tTiming = s.tTiming ∧ (sendTraffic cfg s).tTraffic = s.now ∧
+      (sendTraffic cfg s).trafficSeq = s.trafficSeq + 1 ∧ (sendTraffic cfg s).tInfo = s.tInfo := by
+  unfold sendTraffic
+  dsimp only
+  have h1 := (logAt_macc cfg 10 ({ s with inTraffic := true } : State)).any
+  generalize logAt cfg (fwdTop cfg) 10 ({ s with inTraffic := true } : State) = s1 at h1
+  have h2 := h1.trans (foldl_fwdTop_any cfg (trafficFrames cfg s1.trafficSeq s1.traffic) s1)
+  generalize (trafficFrames cfg s1.trafficSeq s1.traffic).foldl (fwdTop cfg) s1 = s2 at h2
+  obtain ⟨e, ha⟩ := h2
+  refine ⟨e, ha.marks, ⟨by rw [ha.hist]; rfl, ?_, ha.now, ha.buf, rfl⟩, ha.tT, ha.now, by show s2.trafficSeq + 1 = _; rw [ha.seq], ha.tI⟩
+  intro m hm
+  rcases List.mem_cons.mp hm with rfl | h
+  · exact Or.inr (Or.inl rfl)
+  · exact tickMark_of_marks ha.marks m h
+
+/-- the TIMING part of the periodic section -/
+theorem timingPart_acc (cfg : Cfg) (s : State) (hidle : s.inTraffic = false) (t1 : Bool) :
+    ∃ mk, StepT cfg s (if t1 = true then { sendTiming cfg s with tTiming := s.now } else s) mk ∧
+      (Mark.timingTick ∈ mk ↔ t1 = true) ∧ Mark.trafficTick ∉ mk ∧
+      (if t1 = true then { sendTiming cfg s with tTiming := s.now } else s).tTiming = (if t1 = true then s.now else s.tTiming) ∧
+      (if t1 = true then { sendTiming cfg s with tTiming := s.now } else s).tTraffic = s.tTraffic ∧
+      (if t1 = true then { sendTiming cfg s with tTiming := s.now } else s).trafficSeq = s.trafficSeq ∧
+      (if t1 = true then { sendTiming cfg s with tTiming := s.now } else s).tInfo = s.tInfo := by
+  cases t1 with
+  | false => exact ⟨[], StepT.refl cfg hidle, (by simp), (by simp), rfl, rfl, rfl, rfl⟩
+  | true =>
+    obtain ⟨e, hm, hst, g1, g2, g3⟩ := sendTiming_acc cfg s
+    refine ⟨.timingTick :: e, ⟨hst.hist, hst.marks, hst.now, hst.buf, hst.idle⟩, (by simp), ?_, rfl, g1, g2, g3⟩
+    intro hc
+    rcases List.mem_cons.mp hc with h | h
+    · cases h
+    · exact (no_tick_in_marks hm).2 h
+
+/-- the MESSAGE_TRAFFIC part -/
+theorem trafficPart_acc (cfg : Cfg) (s : State) (hidle : s.inTraffic = false) (t2 : Prop) [Decidable t2] :
+    ∃ mk, StepT cfg s (if t2 then sendTraffic cfg s else s) mk ∧
+      (Mark.trafficTick ∈ mk ↔ t2) ∧ Mark.timingTick ∉ mk ∧
+      (if t2 then sendTraffic cfg s else s).tTiming = s.tTiming ∧
+      (if t2 then sendTraffic cfg s else s).tTraffic = (if t2 then s.now else s.tTraffic) ∧
+      (if t2 then sendTraffic cfg s else s).trafficSeq = (if t2 then s.trafficSeq + 1 else s.trafficSeq) ∧
+      (if t2 then sendTraffic cfg s else s).tInfo = s.tInfo := by
+  by_cases ht : t2
+  · obtain ⟨e, hm, hst, g1, g2, g3, g4⟩ := sendTraffic_acc cfg s
+    simp only [ht, if_true]
+    refine ⟨.trafficTick :: e, hst, (by simp), ?_, g1, g2, g3, g4⟩
+    intro hc
+    rcases List.mem_cons.mp hc with h | h
+    · cases h
+    · exact (no_tick_in_marks hm).1 h
+  · simp only [ht, if_false]
+    exact ⟨[], StepT.refl cfg hidle, (by simp), (by simp), trivial, trivial, trivial, trivial⟩
+
+/-- the ACTIVE_CLIENTS part -/
+theorem activePart_acc (cfg : Cfg) (s : State) (hidle : s.inTraffic = false) (t3 : Prop) [Decidable t3] :
+    ∃ mk, StepT cfg s (if t3 then sendActive cfg s else s) mk ∧
+      Mark.timingTick ∉ mk ∧ Mark.trafficTick ∉ mk ∧
+      (if t3 then sendActive cfg s else s).tTiming = s.tTiming ∧
+      (if t3 then sendActive cfg s else s).tTraffic = s.tTraffic ∧
+      (if t3 then sendActive cfg s else s).trafficSeq = s.trafficSeq ∧
+      (if t3 then sendActive cfg s else s).tInfo = (if t3 then s.now else s.tInfo) := by
+  by_cases ht : t3
+  · simp only [ht, if_true]
+    obtain ⟨s3, ⟨e, ha⟩, he⟩ := sendActive_acc cfg s
+    rw [he]
+    exact ⟨e, ⟨ha.hist, tickMark_of_mgr ha.marks, ha.now, ha.buf, ha.inT.trans hidle⟩, (no_tick_in_marks ha.marks).1,
+      (no_tick_in_marks ha.marks).2, ha.tT, ha.tR, ha.seq, ha.now⟩
+  · simp only [ht, if_false]
+    exact ⟨[], StepT.refl cfg hidle, (by simp), (by simp), trivial, trivial, trivial, trivial⟩
+
+/-- **the periodic section as a whole**: its marks are ticks, frames handled inside a statistics send, or
+    manager-originated frames; a TIMING tick is marked iff the TIMING period has elapsed, a TRAFFIC tick iff the traffic
+    interval has; the clocks move accordingly -/
+theorem ticks_acc (cfg : Cfg) (s : State) (hidle : s.inTraffic = false) :
+    ∃ mk, (ticks cfg s).hist = mk ++ s.hist ∧ (∀ m ∈ mk, TickMark cfg m) ∧
+      (Mark.timingTick ∈ mk ↔ (cfg.timing && decide (s.now - s.tTiming > 900)) = true) ∧
+      (Mark.trafficTick ∈ mk ↔ s.now - s.tTraffic > 1000) ∧
+      (ticks cfg s).now = s.now ∧ (ticks cfg s).buf = s.buf ∧ (ticks cfg s).inTraffic = false ∧
+      (ticks cfg s).tTiming = (if (cfg.timing && decide (s.now - s.tTiming > 900)) = true then s.now else s.tTiming) ∧
+      (ticks cfg s).tTraffic = (if s.now - s.tTraffic > 1000 then s.now else s.tTraffic) ∧
+      (ticks cfg s).trafficSeq = (if s.now - s.tTraffic > 1000 then s.trafficSeq + 1 else s.trafficSeq) ∧
+      (ticks cfg s).tInfo = (if s.now - s.tInfo > 5000 then s.now else s.tInfo) := by
+  unfold ticks
+  dsimp only
+  obtain ⟨mk1, st1, m11, m12, a1, a2, a3, a4⟩ := timingPart_acc cfg s hidle (cfg.timing && decide (s.now - s.tTiming > 900))
+  generalize (if (cfg.timing && decide (s.now - s.tTiming > 900)) = true then
+      { sendTiming cfg s with tTiming := s.now } else s) = s1 at st1 a1 a2 a3 a4 ⊢
+  obtain ⟨mk2, st2, m21, m22, b1, b2, b3, b4⟩ := trafficPart_acc cfg s1 st1.idle (s1.now - s1.tTraffic > 1000)
+  generalize (if s1.now - s1.tTraffic > 1000 then sendTraffic cfg s1 else s1) = s2 at st2 b1 b2 b3 b4 ⊢
+  obtain ⟨mk3, st3, m31, m32, c1, c2, c3, c4⟩ := activePart_acc cfg s2 st2.idle (s2.now - s2.tInfo > 5000)
+  generalize (if s2.now - s2.tInfo > 5000 then sendActive cfg s2 else s2) = s3 at st3 c1 c2 c3 c4 ⊢
+  have n2 : s2.now = s.now := st2.now.trans st1.now
+  rw [st1.now, a2] at m21 b2 b3
+  rw [n2, b4, a4] at c4
+  refine ⟨mk3 ++ (mk2 ++ mk1), by rw [st3.hist, st2.hist, st1.hist]; simp, ?_, ?_, ?_, st3.now.trans n2,
+    st3.buf.trans (st2.buf.trans st1.buf), st3.idle, by rw [c1, b1, a1], by rw [c2, b2], by rw [c3, b3, a3], c4⟩
+  · intro m hm
+    rcases List.mem_append.mp hm with h | h
+    · exact st3.marks m h
+    · rcases List.mem_append.mp h with h | h
+      · exact st2.marks m h
+      · exact st1.marks m h
+  · simp only [List.mem_append]
+    constructor
+    · rintro (h | h | h)
+      · exact absurd h m31
+      · exact absurd h m22
+      · exact m11.mp h
+    · intro h; exact Or.inr (Or.inr (m11.mpr h))
+  · simp only [List.mem_append]
+    constructor
+    · rintro (h | h | h)
+      · exact absurd h m32
+      · exact m21.mp h
+      · exact absurd h m12
+    · intro h; exact Or.inr (Or.inl (m21.mpr h))
+
 def Grows (s s' : State) : Prop := ∃ e, s'.hist = e ++ s.hist
 
 theorem Grows.refl (s : State) : Grows s s := ⟨[], rfl⟩
